@@ -1,6 +1,7 @@
 package harness
 
 import (
+	"sort"
 	"encoding/json"
 	"fmt"
 	"math/rand"
@@ -111,6 +112,7 @@ func genC02(seed int64, tier string) *Scenario {
 		}
 	}
 	model := map[string][]byte{}
+	earlier := map[string][]string{} // texts each document has had (candidates for "back to ...")
 	for _, d := range docs {
 		lines := r.Intn(6)
 		if r.Intn(8) == 0 {
@@ -140,6 +142,17 @@ func genC02(seed int64, tier string) *Scenario {
 			sc.Ops = append(sc.Ops, op)
 			open[d] = true
 			continue
+		}
+		if r.Intn(12) == 0 && len(earlier[d]) > 0 {
+			// back to a text the document had before (undo all the way, restore from history): the
+			// server must not mistake it for "back to the saved text" unless it is
+			old := earlier[d][r.Intn(len(earlier[d]))]
+			model[d] = []byte(old)
+			sc.Ops = append(sc.Ops, Op{Kind: "change", Path: d, Edits: []Edit{{Full: true, Text: old}}})
+			continue
+		}
+		if len(earlier[d]) < 6 {
+			earlier[d] = append(earlier[d], string(model[d]))
 		}
 		switch k := r.Intn(23); {
 		case k == 19: // select all + delete
@@ -208,6 +221,50 @@ func genC02(seed int64, tier string) *Scenario {
 			sc.Ops = append(sc.Ops, Op{Kind: "deliver"})
 		}
 	}
+	if r.Intn(8) == 0 {
+		// recipe: a window in which the settings exclude an open document; it is edited and
+		// (sometimes) saved inside the window, included again, and then edited to a text it had
+		// before the window or to a new one. All texts parse, so the analysed-text oracle applies.
+		d, pat := "a.lua", `"a.lua"`
+		if len(docs) > 1 && docs[1] == "sub/b.lua" && r.Intn(2) == 0 {
+			d, pat = "sub/b.lua", `"sub/"`
+		}
+		good := []string{"local r1 = 1\nfunction fa() end\n", "function fb() return 2 end\n", "gq = {}\nfunction gq.m() end\n", ""}
+		r.Shuffle(len(good), func(i, j int) { good[i], good[j] = good[j], good[i] })
+		full := func(t string) Op { return Op{Kind: "change", Path: d, Edits: []Edit{{Full: true, Text: t}}} }
+		cfg := func(ign string) Op {
+			return Op{Kind: "config", Params: json.RawMessage(fmt.Sprintf(`{"luahelper":{"base":{"IgnoreFileOrDir":[%s]},"Warn":{"AllEnable":true,"CheckSyntax":true}}}`, ign))}
+		}
+		if !open[d] {
+			sc.Ops = append(sc.Ops, Op{Kind: "open", Path: d})
+		}
+		sc.Ops = append(sc.Ops, full(good[0]))
+		if r.Intn(3) > 0 {
+			sc.Ops = append(sc.Ops, Op{Kind: "save", Path: d, NoEvt: r.Intn(2) == 0})
+		}
+		if docs[len(docs)-1] == "/outside/o.lua" && r.Intn(2) == 0 {
+			// a saved document outside the workspace folders stays open across the settings changes
+			o := docs[len(docs)-1]
+			if !open[o] {
+				sc.Ops = append(sc.Ops, Op{Kind: "open", Path: o})
+			}
+			sc.Ops = append(sc.Ops, Op{Kind: "change", Path: o, Edits: []Edit{{Full: true, Text: good[3]}}}, Op{Kind: "save", Path: o, NoEvt: r.Intn(2) == 0})
+		}
+		sc.Ops = append(sc.Ops, cfg(pat), full(good[1]))
+		if r.Intn(3) > 0 {
+			sc.Ops = append(sc.Ops, Op{Kind: "save", Path: d, NoEvt: r.Intn(2) == 0})
+		}
+		if r.Intn(3) == 0 {
+			sc.Ops = append(sc.Ops, full(good[2]))
+		}
+		sc.Ops = append(sc.Ops, cfg(""))
+		if r.Intn(4) > 0 {
+			sc.Ops = append(sc.Ops, full(good[r.Intn(3)]))
+		}
+		if r.Intn(3) == 0 {
+			sc.Ops = append(sc.Ops, Op{Kind: "deliver"})
+		}
+	}
 	sc.Ops = append(sc.Ops, Op{Kind: "settle"})
 	return sc
 }
@@ -244,7 +301,38 @@ func checkC02(t *testing.T, sc *Scenario) *Verdict {
 	applied := 0
 	var failSig string
 	prev := map[string][]byte{}
+	// at the end: what the server ANALYSES for each open document (seen through its document
+	// symbols) is compared with a fresh server that is given exactly the client's text
+	type endDoc struct {
+		path, text, symbols string
+	}
+	var endDocs []endDoc
+	var endDisk []File
+	lastCfg := -1
 	hooks := Hooks{AfterOp: func(e *Engine, i int, op *Op) string {
+		if op.Kind == "config" {
+			lastCfg = i
+		}
+		if op.Kind == "settle" && i == len(sc.Ops)-1 && simRunnable() == 0 {
+			var paths []string
+			for rel := range e.Open {
+				paths = append(paths, rel)
+			}
+			sort.Strings(paths)
+			for _, rel := range paths {
+				if e.External[rel] {
+					// the world rewrote or removed the file under the open buffer and the watcher said
+					// so: the server then re-analyses the disk text; that situation is outside the
+					// notification sequences C02 quantifies over (and C08 leaves it out as well)
+					continue
+				}
+				ans := e.Query([]Op{{Kind: "req", Method: "documentSymbol", Path: rel}})
+				if len(ans) == 1 && ans[0].Done {
+					endDocs = append(endDocs, endDoc{rel, string(e.Open[rel]), ans[0].Result + "|" + ans[0].Err})
+				}
+			}
+			endDisk = DiskFiles()
+		}
 		if op.Async || op.Kind == "step" {
 			return ""
 		}
@@ -296,6 +384,59 @@ func checkC02(t *testing.T, sc *Scenario) *Verdict {
 		c.Sched = withTape(sc.Sched, res.Tape)
 		return v.violation("c02-run-"+res.Outcome, res.Outcome, res.Detail, c)
 	}
+	if len(endDocs) > 0 {
+		fresh := &Scenario{Prop: "C02", Files: endDisk, Plugin: sc.Plugin, FirstCfg: true}
+		if lastCfg >= 0 {
+			fresh.Ops = append(fresh.Ops, sc.Ops[lastCfg])
+		}
+		onDisk := map[string]bool{}
+		for _, f := range endDisk {
+			onDisk[f.Path] = true
+		}
+		for _, d := range endDocs {
+			o := Op{Kind: "open", Path: d.path}
+			if !onDisk[d.path] {
+				empty := ""
+				o.Text = &empty
+			}
+			fresh.Ops = append(fresh.Ops, o, Op{Kind: "change", Path: d.path, Edits: []Edit{{Full: true, Text: d.text + "\n"}}},
+				Op{Kind: "change", Path: d.path, Edits: []Edit{{Full: true, Text: d.text}}},
+				Op{Kind: "req", Method: "documentSymbol", Path: d.path})
+		}
+		fr := Run(t, fresh, Canonical(), Hooks{})
+		v.absorb(fr)
+		if fr.Outcome == OutOK {
+			k := 0
+			for _, a := range fr.Answers {
+				if a.Method != "textDocument/documentSymbol" || k >= len(endDocs) {
+					continue
+				}
+				d := endDocs[k]
+				k++
+				broken := false
+				for _, dg := range fr.View[URI(d.path)] {
+					if strings.Contains(dg, "[Warn type:1]") {
+						broken = true // a buffer that does not parse is analysed from the last good state, which is history
+					}
+				}
+				for _, dg := range res.View[URI(d.path)] {
+					if strings.Contains(dg, "[Warn type:1]") {
+						broken = true
+					}
+				}
+				if broken || ignoredByConfig(fresh, d.path) {
+					// a document the final settings exclude from analysis is not analysed at all
+					continue
+				}
+				if got := a.Result + "|" + a.Err; got != d.symbols {
+					c := sc.Clone()
+					c.Sched = withTape(sc.Sched, res.Tape)
+					return v.violation("c02-analysed-text-differs", "document symbols of the open document differ from those of its text",
+						fmt.Sprintf("%s: the client holds %q; the server answers documentSymbol with %s, a fresh server given that text answers %s (fresh view %v, history view %v)", d.path, clip(d.text, 200), clip(d.symbols, 400), clip(got, 400), fr.View[URI(d.path)], res.View[URI(d.path)]), c)
+				}
+			}
+		}
+	}
 	v.NonTrivial = applied >= 3
 	final := ""
 	for _, f := range []string{"a.lua", "sub/b.lua"} {
@@ -303,6 +444,32 @@ func checkC02(t *testing.T, sc *Scenario) *Verdict {
 	}
 	v.Shape = fmt.Sprintf("edits=%d final=%x", applied, hashString(final))
 	return v
+}
+
+// ignoredByConfig reports whether the settings sent in the (only) config op of sc may exclude
+// path from analysis: any IgnoreFileOrDir entry that occurs in the path counts.
+func ignoredByConfig(sc *Scenario, path string) bool {
+	for _, op := range sc.Ops {
+		if op.Kind != "config" {
+			continue
+		}
+		var p struct {
+			Luahelper struct {
+				Base struct {
+					IgnoreFileOrDir []string
+				} `json:"base"`
+			} `json:"luahelper"`
+		}
+		if json.Unmarshal(op.Params, &p) != nil {
+			return true
+		}
+		for _, pat := range p.Luahelper.Base.IgnoreFileOrDir {
+			if pat != "" && strings.Contains("/"+path, strings.TrimSuffix(pat, "/")) {
+				return true
+			}
+		}
+	}
+	return false
 }
 
 // editsPastLineEnd reports whether any edit of the batch addresses a character past the end of
